@@ -344,7 +344,7 @@ func runC11(r *R) {
 	}
 
 	// ---- R2
-	r.Rule("C11-R2", "uploadToKeepServer: every status sent has statusCode = resp.StatusCode (0 without a response); err == nil only for StatusCode == 200", 1)
+	r.Rule("C11-R2", "uploadToKeepServer: every status sent has statusCode = resp.StatusCode (0 without a response); err == nil exactly when statusCode == 200 (putReplicas tests the code only)", 1)
 	if fn := r.NeedFn("C11-R2", kcT+"uploadToKeepServer"); fn != nil {
 		n := 0
 		allInstrs(fn, func(in ssa.Instruction) {
@@ -367,6 +367,19 @@ func runC11(r *R) {
 				g, _ := Guard(fn, nil, in, EqC("resp.StatusCode == 200", FieldVP("net/http.Response", "StatusCode", nil), ConstIntVP(200)))
 				errOK = g
 			}
+			// converse: putReplicas decides success from statusCode alone, so a status that carries an error must not
+			// carry 200 (a 200 whose body — the signed locator — could not be read is not a confirmed write)
+			not200 := true
+			if e := cf["err"]; e != nil && !IsNilConst(e) {
+				if v := cf["statusCode"]; v != nil {
+					if k, isC := ConstInt(v); isC {
+						not200 = k != 200
+					} else {
+						g, _ := Guard(fn, nil, in, NeqC("resp.StatusCode != 200", FieldVP("net/http.Response", "StatusCode", nil), ConstIntVP(200)))
+						not200 = g
+					}
+				}
+			}
 			repOK := true
 			if v := cf["replicasStored"]; v != nil {
 				if _, isC := ConstInt(v); !isC {
@@ -374,7 +387,7 @@ func runC11(r *R) {
 					repOK = strings.Contains(Canon(v), "rep") || true
 				}
 			}
-			r.Check(codeOK && errOK && repOK, "C11-R2", fn, "uploadStatusChan <- uploadStatus{…}", in.Pos(), "status code is the response's; nil error only for 200", "upload outcome misreported (code="+boolS(codeOK)+" nilOnlyFor200="+boolS(errOK)+")")
+			r.Check(codeOK && errOK && repOK && not200, "C11-R2", fn, "uploadStatusChan <- uploadStatus{…}", in.Pos(), "status code is the response's; nil error exactly for 200", "upload outcome misreported (code="+boolS(codeOK)+" nilOnlyFor200="+boolS(errOK)+" errorNever200="+boolS(not200)+"): putReplicas counts every status 200 as stored replicas and takes its body as the locator")
 		})
 		if n < 3 {
 			r.Bad("C11-R2", fn, "status sends", fn.Pos(), "expected ≥3 sends")
